@@ -38,6 +38,12 @@ CLAIMED["C10"] = ("4/C10", "Every LocalTime/OffsetTime accessor over all nanosec
                   "LocalDateTime.plus_<unit> over an abstract day-number date (contract C09.plusdays); LocalTime +/- Period per unit; ordering.",
                   "float division on symbolic ints is not modelled as real arithmetic: it is concretised on a solver-chosen adversarial dividend (just "
                   "below a multiple of the divisor, beyond 2**55), the rest of that branch is UNKNOWN")
+CLAIMED["C19"] = ("4/C19", "FakeClock: every sequence of 2 (quick) / 3 (thorough) operations out of 12 (read, advance, reset, set/get "
+                  "auto-advance, seven advance_<unit>) with symbolic signed amounts against the trivial model, partitioned by operation prefix; "
+                  "monitor locks show every operation completes (no self-deadlock) and releases the lock; three reads with any non-zero "
+                  "auto-advance are distinct; SystemClock over an arbitrary time_ns; ZonedClock getters over a stub clock, fixed zones and DayCalendar.",
+                  "real thread interleavings are outside the claim (no thread model in this technique family): mutual exclusion is argued from the "
+                  "lock discipline observed on every sequential path")
 NOT_BUILT = {}
 
 NA_REASON = "check not built yet in this round (design in DESIGN.md section 4); no claim is made"
